@@ -922,7 +922,8 @@ def gen_op(rng, ws, info):
             target = {"$n": 1}
         else:
             kw["target_data"] = {"$a": idx["td_c"]}
-            target = rng.choice([{"$n": 0}, {"$a": idx["lev"]}])
+            # ({"$n": 1} holds a level at 0: the edge of the domain of the logarithm)
+            target = rng.choice([{"$n": 0}, {"$a": idx["lev"]}, {"$n": 1}])
             if rng.random() < 0.5:
                 kw["mask_edges"] = False
         if rng.random() < 0.3:
